@@ -328,7 +328,16 @@ class C19(Check):
                         out.append({'kind': 'sched', 'mode': mode, 'progs': [p, q]})
                 for a, b, c in itertools.combinations_with_replacement(['get', 'rmv', 'get_getter_raises', 'get_body_raises'], 3):
                     out.append({'kind': 'sched', 'mode': mode, 'progs': [[(a, 'k1')], [(b, 'k1')], [(c, 'k2')]]})
-        return out + disk_cases(tier)
+        split = []
+        for c in out:      # heavy schedule trees are spread over several workers: one sub-case per (policy, part of the first-level deviations)
+            weight = sum(len(p) for p in c['progs']) + sum(1 for p in c['progs'] for op, _ in p if op == 'get_nested')
+            nparts = 4 if len(c['progs']) >= 3 else (2 if weight >= 3 else 0)
+            if nparts:
+                for pol in ('low', 'high'):
+                    for k in range(nparts): split.append({**c, 'policy': pol, 'part': [k, nparts]})
+            else:
+                split.append(c)
+        return split + disk_cases(tier)
 
     def bound(self, case):
         if self._tier == 'quick': return 2
@@ -356,7 +365,8 @@ class C19(Check):
             on_exec(sched.execute(factory(), schedule['schedule'], schedule['policy']), tuple(schedule['schedule']), schedule['policy'])
             return
         cap = 6000 if self._tier == 'quick' else 80000
-        st = sched.explore(factory, self.bound(case), ('low', 'high'), cap=cap, on_exec=on_exec)
+        policies = (case['policy'],) if case.get('policy') else ('low', 'high')
+        st = sched.explore(factory, self.bound(case), policies, cap=cap, on_exec=on_exec, part=tuple(case['part']) if case.get('part') else None)
         acc.states += st['points']; acc.transitions += st['transitions']; acc.traces += st['executions']
         acc.count('executions', st['executions'])
         acc.counters['max_depth_points'] = max(acc.counters.get('max_depth_points', 0), st['max_depth'])
